@@ -292,6 +292,12 @@ def level_key(i):
     return 'L%d' % i
 
 
+def prefix_names(level):
+    """URL bindings carried by an embedding prefix such as '/s/<pa>'"""
+    import re as _re
+    return _re.findall(r'<([A-Za-z_]\w*)>', level.get('prefix') or '')
+
+
 def build(cfg, world=None, error_handler='reraise', stage_hook=None):
     """Constructs innermost -> outermost.  Returns Built(app, world, prefix, apps).  Construction errors
     propagate with attribute .stage set (index of the level being constructed)."""
@@ -389,8 +395,15 @@ def build(cfg, world=None, error_handler='reraise', stage_hook=None):
 
 
 def request_path(cfg, built, reqno):
+    import re as _re
     segs = ['u-%s-%d' % (u, reqno) for u in cfg['route'].get('url') or []]
-    return built.prefix + '/r' + ''.join('/' + s for s in segs), dict(zip(cfg['route'].get('url') or [], segs))
+    values = dict(zip(cfg['route'].get('url') or [], segs))
+    pnames = _re.findall(r'<([A-Za-z_]\w*)>', built.prefix)
+    prefix = built.prefix
+    for n in pnames:
+        values[n] = 'u-%s-%d' % (n, reqno)
+        prefix = prefix.replace('<%s>' % n, values[n])
+    return prefix + '/r' + ''.join('/' + s for s in segs), values
 
 
 # ------------------------------------------------------------------ M1: the reference model
@@ -594,8 +607,11 @@ def predict(cfg):
         resources[name] = ('R', name)
     plan = None
     cyclic = False
+    url_acc = list(rt.get('url') or [])
     for i in range(n - 1, -1, -1):
         lv = levels[i]
+        if i < n - 1:
+            url_acc = url_acc + prefix_names(levels[i + 1])     # the prefix under which level i+1 was embedded into level i
         try:
             # the application's own list and resources are checked on their own first
             for name in lv.get('res') or []:
@@ -615,7 +631,7 @@ def predict(cfg):
                 resources.setdefault(name, (level_key(i), name))
             cyc = is_cyclic(stack, rt['ep'])
             try:
-                av = check_route(stack, rt.get('url') or [], list(resources), rt['ep'], rt.get('rn'))
+                av = check_route(stack, url_acc, list(resources), rt['ep'], rt.get('rn'))
             except Reject as r:
                 r.cyclic = cyc or cyclic
                 raise
@@ -635,7 +651,7 @@ def predict(cfg):
         if name in (rt.get('res') or []):
             owners.append('R')
         res_owner[name] = owners
-    plan.route = View(stack, av, rt.get('url') or [], res_owner, rt, False)
+    plan.route = View(stack, av, url_acc, res_owner, rt, False)
     l0 = levels[0]
     null_owner = dict((name, ['L0']) for name in (l0.get('res') or []))
     plan.null = View(list(l0['mws']), availability(l0['mws'], ['_ignored'], l0.get('res') or []), ['_ignored'],
